@@ -7,7 +7,7 @@
        NO state at all has a loss smaller than  f x + <g,y> - mu r     whenever  r >= 0,  r^2 >= 4 |y|^2                *)
 From Coq Require Import Arith List Bool Lia Field Ring Setoid.
 From QV.Core Require Import OF Sums Mat Cplx C01_HermPsd.
-From QV.Model Require Import QObj C11_Pgdb.
+From QV.Model Require Import QObj C02_Conv C11_Pgdb.
 From QV.Proofs Require Import C11_Pgdb C02_QObjBase.
 Import ListNotations.
 
@@ -195,4 +195,63 @@ Theorem C11_universal_gap_states d (B : nat -> cmat F) (P : vec -> vec) (f : vec
 Proof. intros Ho Hb Hmu0 Hmu HP Hconv x r y Hr Hrr z Cz.
   apply (C11_universal_gap_ball (d * d) (C11_state_set d B) P f g mu 1 Hmu0 Hmu HP Hconv (C11_state_set_ball d B Ho Hb) x r Hr); [|exact Cz].
   fold y. replace ((1 + 1) * 1 + (1 + 1) * 1) with ((1 + 1) + (1 + 1)) by ring. exact Hrr. Qed.
+
+(* ------------------------------------------------------------------ POVMs: stacked coefficient vectors (m blocks of length d*d), every element PSD,
+   the traces sum to dd (= d for elements summing to the identity) *)
+Definition C11_block (D x : nat) (v : vec) : vec := fun a => v (x * D + a)%nat.
+Definition C11_povm_set (d m : nat) (B : nat -> cmat F) (dd : F) : vec -> Prop :=
+  fun v => (forall x, (x < m)%nat -> HPSD d (op_of_vec d B (C11_block (d * d) x v)))
+           /\ sumn m (fun x => C11_rtrace d (op_of_vec d B (C11_block (d * d) x v))) = dd.
+
+Lemma C11_sum_sq_le_sq_sum m (a : nat -> F) : (forall x, (x < m)%nat -> 0 <= a x) ->
+  sumn m (fun x => a x * a x) <= sumn m a * sumn m a.
+Proof. induction m as [|m IH]; intros H; cbn [sumn]; [apply C11_le_refl_eq; ring|].
+  assert (Hs : 0 <= sumn m a) by (apply C11_sumn_nonneg; intros; apply H; lia).
+  assert (Ha : 0 <= a m) by (apply H; lia).
+  assert (IH' : sumn m (fun x => a x * a x) <= sumn m a * sumn m a) by (apply IH; intros; apply H; lia).
+  assert (Hc : 0 <= (1 + 1) * (sumn m a * a m)) by (apply k_mul; [apply C11_two_pos|now apply k_mul]).
+  apply (C11_le_by2 F _ _ _ _ _ _ IH' Hc). unfold C11_two. ring. Qed.
+Lemma C11_rtrace_nonneg n (H : cmat F) : HPSD n H -> 0 <= C11_rtrace n H.
+Proof. intros P. apply C11_sumn_nonneg. intros i Hi. now apply (C11_psd_diag n H i). Qed.
+
+Lemma C11_povm_set_ball d m B dd : basis_orthonormal d B -> basis_hermitian d B ->
+  forall z, C11_povm_set d m B dd z -> C11_nrm2 F (m * (d * d)) z <= dd * dd.
+Proof. intros Ho Hb z [Pz Tz].
+  set (t := fun x => C11_rtrace d (op_of_vec d B (C11_block (d * d) x z))).
+  assert (E : C11_nrm2 F (m * (d * d)) z = sumn m (fun x => C11_nrm2 F (d * d) (C11_block (d * d) x z))).
+  { unfold C11_nrm2, dot. rewrite sumn_flat. reflexivity. }
+  rewrite E. apply (k_trans F _ (sumn m (fun x => t x * t x))).
+  - apply C11_sumn_le. intros x Hx. apply (C11_coeff_norm_le_trace_sq d B _ Ho Hb (Pz x Hx)).
+  - rewrite <- Tz. apply C11_sum_sq_le_sq_sum. intros x Hx. apply C11_rtrace_nonneg. now apply Pz. Qed.
+
+Theorem C11_universal_gap_povms d m (B : nat -> cmat F) (dd : F) (P : vec -> vec) (f : vec -> F) (g : vec -> vec) (mu : F) :
+  basis_orthonormal d B -> basis_hermitian d B ->
+  mu <> 0 -> 0 <= mu -> C11_obtuse F (m * (d * d)) (C11_povm_set d m B dd) P -> C11_first_order_convex F (m * (d * d)) f g ->
+  forall x r, let y := C11_dir F P g mu x in
+  0 <= r -> C11_nrm2 F (m * (d * d)) y * ((1 + 1) * (dd * dd) + (1 + 1) * (dd * dd)) <= r * r ->
+  forall z, C11_povm_set d m B dd z -> f x - f z <= - dot (m * (d * d)) (g x) y + mu * r.
+Proof. intros Ho Hb Hmu0 Hmu HP Hconv x r y Hr Hrr z Cz.
+  exact (C11_universal_gap_ball (m * (d * d)) (C11_povm_set d m B dd) P f g mu (dd * dd) Hmu0 Hmu HP Hconv
+           (C11_povm_set_ball d m B dd Ho Hb) x r Hr Hrr z Cz). Qed.
+
+(* ------------------------------------------------------------------ gates: flattened HS matrices whose Choi matrix is PSD with trace dd (= d for trace-preserving maps) *)
+Lemma C11_choi_as_op d (B : nat -> cmat F) (HS : rmat F) i j :
+  choi_of_hs d B HS i j = op_of_vec (d * d) (bb_basis d B) (vecr (d * d) HS) i j.
+Proof. rewrite choi_of_hs_cchoi, cchoi_as_op, op_of_vec_cvec. reflexivity. Qed.
+Definition C11_gate_set (d : nat) (B : nat -> cmat F) (dd : F) : vec -> Prop :=
+  fun v => HPSD (d * d) (op_of_vec (d * d) (bb_basis d B) v) /\ C11_rtrace (d * d) (op_of_vec (d * d) (bb_basis d B) v) = dd.
+Lemma C11_gate_set_ball d B dd : basis_orthonormal d B -> basis_hermitian d B ->
+  forall z, C11_gate_set d B dd z -> C11_nrm2 F ((d * d) * (d * d)) z <= dd * dd.
+Proof. intros Ho Hb z [Pz Tz].
+  pose proof (C11_coeff_norm_le_trace_sq (d * d) (bb_basis d B) z (bb_orthonormal F d B Ho) (bb_hermitian F d B Hb) Pz) as A.
+  rewrite Tz in A. exact A. Qed.
+Theorem C11_universal_gap_gates d (B : nat -> cmat F) (dd : F) (P : vec -> vec) (f : vec -> F) (g : vec -> vec) (mu : F) :
+  basis_orthonormal d B -> basis_hermitian d B ->
+  mu <> 0 -> 0 <= mu -> C11_obtuse F ((d * d) * (d * d)) (C11_gate_set d B dd) P -> C11_first_order_convex F ((d * d) * (d * d)) f g ->
+  forall x r, let y := C11_dir F P g mu x in
+  0 <= r -> C11_nrm2 F ((d * d) * (d * d)) y * ((1 + 1) * (dd * dd) + (1 + 1) * (dd * dd)) <= r * r ->
+  forall z, C11_gate_set d B dd z -> f x - f z <= - dot ((d * d) * (d * d)) (g x) y + mu * r.
+Proof. intros Ho Hb Hmu0 Hmu HP Hconv x r y Hr Hrr z Cz.
+  exact (C11_universal_gap_ball ((d * d) * (d * d)) (C11_gate_set d B dd) P f g mu (dd * dd) Hmu0 Hmu HP Hconv
+           (C11_gate_set_ball d B dd Ho Hb) x r Hr Hrr z Cz). Qed.
 End C11_Diameter.
